@@ -762,6 +762,122 @@ pub fn receiver_auto_credit_dispose(n: u32, processed_before: u32, k: u32, singl
     out
 }
 
+/* --------------------------- receiver: transfer frames --------------------- */
+
+/// One incoming transfer frame for [`receiver_transfer_sequence`].
+#[derive(Debug, Clone)]
+pub struct VTransferFrame {
+    pub delivery_id: Option<u32>,
+    pub delivery_tag: Option<Vec<u8>>,
+    pub more: bool,
+    pub aborted: bool,
+    pub settled: Option<bool>,
+    pub payload: Vec<u8>,
+}
+
+/// What `ReceiverInner::on_incoming_transfer` made of one frame.
+#[derive(Debug, Clone, PartialEq, Eq)]
+pub struct VTransferOutcome {
+    /// 0: no delivery yet, 1: a complete delivery, 2: error
+    pub kind: u8,
+    /// the binary body of the delivered message (`amqp-value` section holding a binary)
+    pub body: Vec<u8>,
+    pub delivery_id: u32,
+    /// a partial delivery is buffered after this frame
+    pub buffered: bool,
+}
+
+/// A real `ReceiverInner` (attached receiver link with plenty of credit) fed the given transfer
+/// frames one after the other through `on_incoming_transfer::<Value>`.
+pub fn receiver_transfer_sequence(frames: &[VTransferFrame]) -> Vec<VTransferOutcome> {
+    use crate::link::{
+        receiver::{CreditMode, ReceiverInner},
+        LinkFrame, ReceiverLink,
+    };
+    use fe2o3_amqp_types::{
+        definitions::{DeliveryTag, Handle},
+        messaging::Target,
+        performatives::Transfer,
+        primitives::Value,
+    };
+    use std::sync::atomic::AtomicU32;
+
+    let flow = Arc::new(LinkFlowState::receiver(inner(VFlowInner {
+        initial_delivery_count: 0,
+        delivery_count: 0,
+        link_credit: 1000,
+        available: 0,
+        drain: false,
+    })));
+    let link: ReceiverLink<Target> = crate::link::Link {
+        role: std::marker::PhantomData,
+        local_state: crate::link::state::LinkState::Attached,
+        name: String::new(),
+        output_handle: Some(OutputHandle(0)),
+        input_handle: Some(InputHandle(0)),
+        snd_settle_mode: Default::default(),
+        rcv_settle_mode: Default::default(),
+        source: None,
+        target: None,
+        max_message_size: 0,
+        offered_capabilities: None,
+        desired_capabilities: None,
+        flow_state: flow,
+        unsettled: Arc::new(parking_lot::RwLock::new(Some(crate::link::UnsettledMap::default()))),
+        session_stop_reason: Arc::new(OnceLock::new()),
+        verify_incoming_source: false,
+        verify_incoming_target: false,
+    };
+    let (session_tx, _session_rx) = mpsc::channel(8);
+    let (outgoing, _outgoing_rx) = mpsc::channel::<LinkFrame>(1024);
+    let (_incoming_tx, incoming) = mpsc::channel::<LinkFrame>(8);
+    let mut recv = ReceiverInner {
+        link,
+        buffer_size: 16,
+        credit_mode: CreditMode::Manual,
+        processed: Arc::new(AtomicU32::new(0)),
+        auto_accept: false,
+        session: session_tx,
+        outgoing,
+        incoming,
+        incomplete_transfer: None,
+    };
+    let mut out = Vec::new();
+    for f in frames {
+        let transfer = Transfer {
+            handle: Handle(0),
+            delivery_id: f.delivery_id,
+            delivery_tag: f.delivery_tag.clone().map(DeliveryTag::from),
+            message_format: if f.delivery_id.is_some() { Some(0) } else { None },
+            settled: f.settled,
+            more: f.more,
+            rcv_settle_mode: None,
+            state: None,
+            resume: false,
+            aborted: f.aborted,
+            batchable: false,
+        };
+        let r = {
+            let mut fut = Box::pin(recv.verif_on_incoming_transfer::<Value>(transfer, bytes::Bytes::from(f.payload.clone())));
+            poll_once(fut.as_mut())
+        };
+        let buffered = recv.incomplete_transfer.is_some();
+        out.push(match r {
+            std::task::Poll::Ready(Ok(Some(d))) => {
+                let body = match &d.message.body {
+                    Value::Binary(b) => b.to_vec(),
+                    _ => Vec::new(),
+                };
+                VTransferOutcome { kind: 1, body, delivery_id: d.delivery_id, buffered }
+            }
+            std::task::Poll::Ready(Ok(None)) => VTransferOutcome { kind: 0, body: Vec::new(), delivery_id: 0, buffered },
+            _ => VTransferOutcome { kind: 2, body: Vec::new(), delivery_id: 0, buffered },
+        });
+    }
+    std::mem::forget(recv); // its Drop would send a detach
+    out
+}
+
 /* ------------------------------ link handles ------------------------------- */
 
 impl VSession {
